@@ -46,6 +46,7 @@ double verif_toReal(long long q)
 #define RT_Q(lo, up) RT((lo) <= -posInf, (up) >= posInf, (lo) == (up))
 #define RT_R(lo, up) RT((lo) <= -K_REAL_INFINITY, (up) >= K_REAL_INFINITY, (lo) == (up))
 
+#define INR(k, n) (0 <= (k) && (k) < (n))
 #define IS_VARSTATUS(s) (ON_UPPER <= (s) && (s) <= BASIC)
 #define AUTO (syncmode == SYNCMODE_AUTO)
 
@@ -68,12 +69,14 @@ double verif_toReal(long long q)
 #define r_up (dbuf + 3 * ACAP)
 #define vec1 (dbuf + 4 * ACAP)
 #define vec2 (dbuf + 5 * ACAP)
+#define r_obj (dbuf + 6 * ACAP)
 #define q_lhs (qbuf)
 #define q_rhs (qbuf + ACAP)
 #define q_low (qbuf + 2 * ACAP)
 #define q_up (qbuf + 3 * ACAP)
 #define qvec1 (qbuf + 4 * ACAP)
 #define qvec2 (qbuf + 5 * ACAP)
+#define q_obj (qbuf + 6 * ACAP)
 #define rowTypes (ibuf)
 #define colTypes (ibuf + ACAP)
 #define bsRows (ibuf + 2 * ACAP)
@@ -89,19 +92,38 @@ double verif_toReal(long long q)
    __CPROVER_requires(SYNCMODE_ONLYREAL <= syncmode && syncmode <= SYNCMODE_MANUAL) \
    __CPROVER_requires((loaded == 0 || loaded == 1) && (hasBasis == 0 || hasBasis == 1) && (scaled == 0 || scaled == 1) && (permnull == 0 || permnull == 1)) \
    __CPROVER_requires(K_BASIS_NO_PROBLEM <= sbstat && sbstat <= K_BASIS_NO_PROBLEM + 7) \
-   __CPROVER_requires(1e10 <= infty && infty <= 1e100 && 0 < posInf && posInf <= QMAX) \
-   __CPROVER_requires(__CPROVER_is_fresh(dbuf, 6 * ACAP * sizeof(double)) && __CPROVER_is_fresh(qbuf, 6 * ACAP * sizeof(long long))) \
-   __CPROVER_requires(__CPROVER_is_fresh(ibuf, (4 * ACAP + 16) * sizeof(int))) \
+   __CPROVER_requires(1e10 <= infty && infty <= 1e100 && posInf == TORAT(infty))   /* setRealParam(INFTY) sets both */ \
+   __CPROVER_requires(__CPROVER_is_fresh(dbuf, 7 * ACAP * sizeof(double)) && __CPROVER_is_fresh(qbuf, 7 * ACAP * sizeof(long long))) \
+   __CPROVER_requires(__CPROVER_is_fresh(ibuf, (4 * ACAP + 16) * sizeof(int)) && (out[2] == 0 || out[2] == 1) && (out[3] == 0 || out[3] == 1)) \
    __CPROVER_requires(__CPROVER_is_fresh(perm, ACAP * sizeof(int)) && __CPROVER_is_fresh(idx, ACAP * sizeof(int))) \
    __CPROVER_requires(g_nr == nr && g_nc == nc && g_qnr == qnr && g_qnc == qnc && g_n == n && g_nbr == nbr && g_nbc == nbc && g_nrt == nrt && g_nct == nct) \
    __CPROVER_requires(g_seq == 0 && gr_calls == 0 && gq_calls == 0 && gi_calls == 0 && g_lu_clear == 0 && g_inval_calls == 0 && g_complete_calls == 0) \
    __CPROVER_requires(g_solreal_inval == 0 && g_solrat_inval == 0 && g_reload_calls == 0 && g_sb_calls == 0 && g_i2p_calls == 0 && g_pp_calls == 0 && g_tc_calls == 0)
+
+/* SoPlexBase::_isConsistent(): the type arrays have the rational LP's dimensions (when there is a rational LP);
+ * in automatic mode both LPs have equal dimensions; a basis kept outside the solver has the real LP's dimensions */
+#define ONLYREAL (syncmode == SYNCMODE_ONLYREAL)
+#define REQ_CONSISTENT \
+   __CPROVER_requires(ONLYREAL || (nrt == qnr && nct == qnc)) \
+   __CPROVER_requires(!AUTO || (qnr == nr && qnc == nc)) \
+   __CPROVER_requires(loaded || !hasBasis || (nbr == nr && nbc == nc))
+
+/* number of survivors of a removal-by-perm among the old indices < k (perm evaluated in the pre-state; CAP <= 8) */
+#define SURV(m, k) (((m) < (k) && perm[m] >= 0) ? 1 : 0)
+#define CNT(k) (SURV(0, k) + SURV(1, k) + SURV(2, k) + SURV(3, k) + SURV(4, k) + SURV(5, k) + SURV(6, k) + SURV(7, k))
 
 /* the post-state every PUBLIC modifier must establish (C06: nothing cached is reported as current):
  * the real body of _invalidateSolution ran exactly once, as the last thing, and left the flags down */
 #define ENS_INVALIDATED \
    __CPROVER_ensures(out[1] == K_STATUS_UNKNOWN && out[2] == 0 && out[3] == 0) \
    __CPROVER_ensures(g_inval_calls == 1 && g_inval_seq == g_seq && g_solreal_inval == 1 && g_solrat_inval == 1)
+#define ENS_INVALIDATED_UNLESS(c) \
+   __CPROVER_ensures((c) || (out[1] == K_STATUS_UNKNOWN && out[2] == 0 && out[3] == 0)) \
+   __CPROVER_ensures((c) || (g_inval_calls == 1 && g_inval_seq == g_seq && g_solreal_inval == 1 && g_solrat_inval == 1))
+/* nothing at all happened (rational modifier in real-only mode) */
+#define NOTHING (g_seq == 0 && gr_calls == 0 && gq_calls == 0 && gi_calls == 0 && g_inval_calls == 0 && g_complete_calls == 0 && g_lu_clear == 0 \
+   && g_i2p_calls == 0 && g_pp_calls == 0 && g_tc_calls == 0 && out[0] == hasBasis && out[1] == __CPROVER_old(out[1]) && out[2] == __CPROVER_old(out[2]) \
+   && out[3] == __CPROVER_old(out[3]) && out[4] == nrt && out[5] == nct && out[6] == nbr && out[7] == nbc && out[8] == nr && out[9] == nc)
 
 /* row/column selection for the instances that exist once for sides and once for bounds */
 #ifdef ISROW
@@ -114,6 +136,8 @@ double verif_toReal(long long q)
 #define R_LO r_lhs
 #define R_UP r_rhs
 #define OUT_NTYPES out[4]
+#define DIMOUT_R 8
+#define DIMOUT_Q 10
 #define BS bsRows
 #define NBS nbr
 #define OUT_NBS out[6]
@@ -130,12 +154,22 @@ double verif_toReal(long long q)
 #define R_LO r_low
 #define R_UP r_up
 #define OUT_NTYPES out[5]
+#define DIMOUT_R 9
+#define DIMOUT_Q 11
 #define BS bsCols
 #define NBS nbc
 #define OUT_NBS out[7]
 #define OBS bsRows
 #define ONBS nbr
 #define OUT_ONBS out[6]
+#endif
+
+/* _rangeTypeReal uses the global `infinity`, _rangeTypeRational the parameter INFTY: instances that compare the two are
+ * stated for the default parameter value unless ANY_INFTY is defined */
+#ifdef ANY_INFTY
+#define REQ_INFTY
+#else
+#define REQ_INFTY __CPROVER_requires(infty == K_REAL_INFINITY)
 #endif
 
 #include KINDFILE
